@@ -12,17 +12,17 @@ EXTENDS FM, FMEq
 CONSTANTS Strategies
 
 VARIABLES other, how, edit
-evars == <<model, hist, stage, pos, walk, other, how, edit>>
+evars == <<model, hist, stage, pos, walk, base, other, how, edit>>
 
 NoEdit == [k |-> "", i |-> 0, j |-> 0, x |-> "", lo |-> 0, hi |-> 0]
 
 EInit == Init /\ other = model /\ how = "none" /\ edit = NoEdit
 Grow  == how = "none" /\ Next /\ other' = model' /\ UNCHANGED <<how, edit>>
 Fork(s) == /\ how = "none" /\ Len(model.feats) > 1
-           /\ how' = s /\ other' = model /\ UNCHANGED <<model, hist, stage, pos, walk, edit>>
+           /\ how' = s /\ other' = model /\ UNCHANGED <<model, hist, stage, pos, walk, base, edit>>
 Edit(e) == /\ how = "none" /\ EditOK(model, e)
            /\ how' = "edit" /\ edit' = e /\ other' = ApplyEdit(model, e)
-           /\ UNCHANGED <<model, hist, stage, pos, walk>>
+           /\ UNCHANGED <<model, hist, stage, pos, walk, base>>
 ENext == Grow \/ (\E s \in Strategies : Fork(s)) \/ (\E e \in Edits(model) : Edit(e))
 ESpec == EInit /\ [][ENext]_evars
 
